@@ -23,7 +23,8 @@
 (***************************************************************************)
 EXTENDS QLogFileAlg, Json
 
-CONSTANTS MaxLines, MinLen, MaxLen
+CONSTANTS MaxLines, MinLen, MaxLen,
+          EmitProbes    \* emit the probe classes too (they saturate at 6 lines; the read classes need 8)
 
 VARIABLE st
 mvars == <<avars, st>>
@@ -48,7 +49,7 @@ Pick == /\ st = "pick"
 \* Emission of the layout (content lengths) with its alignment classes.
 Lens == [i \in 1..NLines |-> ends[i] - LineStart(i)]
 Classify == /\ st = "classify"
-            /\ PrintT(<<"@@V", ToJson([lens |-> Lens, rc |-> ReadClasses, pc |-> ProbeClasses])>>)
+            /\ PrintT(<<"@@V", ToJson([lens |-> Lens, rc |-> ReadClasses, pc |-> IF EmitProbes THEN ProbeClasses ELSE {}])>>)
             /\ st' = "run"
             /\ UNCHANGED avars
 
